@@ -182,11 +182,19 @@ def tlc(ctx, module, cfg, *, workers="auto", timeout=900, simulate=None, depth=N
         jopts.append("-Dtlc2.tool.queue.IStateQueue=StateDeque")
     env["JAVA_TOOL_OPTIONS"] = (env.get("JAVA_TOOL_OPTIONS", "") + " " + " ".join(jopts)).strip()
     t0 = time.time()
-    try:
-        p = subprocess.run(["timeout", "-k", "10", str(timeout)] + args, cwd=d, env=env,
-                           stdout=subprocess.PIPE, stderr=subprocess.STDOUT, text=True)
-    except Exception as e:
-        raise Inconclusive("tlc could not be started: %r" % e)
+    for attempt in (1, 2):
+        try:
+            p = subprocess.run(["timeout", "-k", "10", str(timeout)] + args, cwd=d, env=env,
+                               stdout=subprocess.PIPE, stderr=subprocess.STDOUT, text=True)
+        except Exception as e:
+            raise Inconclusive("tlc could not be started: %r" % e)
+        # a JVM that was killed from outside (signal) leaves neither a verdict nor an error message: run it once more
+        if attempt == 1 and p.returncode not in (0, 124, 137) and "Error:" not in p.stdout \
+                and "Model checking completed" not in p.stdout and "error" not in p.stdout.lower():
+            log("tlc ended without a verdict (rc=%d); retrying once" % p.returncode)
+            shutil.rmtree(os.path.join(d, "meta"), ignore_errors=True)
+            continue
+        break
     r = TlcResult()
     r.module, r.cfg, r.mode = module, cfg, mode
     r.wall = time.time() - t0
